@@ -1,6 +1,1747 @@
 // Contract harnesses for ntp-proto/src/source.rs (child module: sees private items).
-#![allow(unused_imports)]
+// Properties: C11 (reachability / reset), C12 (version negotiation), C09/C08/C07 (handle_incoming),
+// C33 (accept_synchronization), and the source.rs parts of C10 (c10_*) and C05 (c05_*).
+// Compiled in the transformed copy (HashMap -> VecMap, see /verif/transforms.json) with the C clock
+// model (kani/clock.c) because NtpSource holds a HashMap and reads tokio::time::Instant::now().
+#![allow(unused_imports, dead_code, clippy::all)]
 use super::*;
+use crate::packet::v5::{NtpClientCookie, NtpEra, NtpFlags, NtpHeaderV5, NtpMode, NtpServerCookie, NtpTimescale};
+use crate::packet::{CipherProvider, NtpHeaderV3V4, NtpLeapIndicator};
+use crate::time_types::{NtpDuration, PollIntervalLimits};
+use crate::verif_common::{harness, EfLists, FromParts, Parts, V3V4Parts};
+use std::sync::atomic::{AtomicBool, AtomicI64, AtomicU64, AtomicU8, Ordering::Relaxed};
+
+// ---------------------------------------------------------------- recording controller (ghost state)
+static MEAS_CALLS: AtomicU8 = AtomicU8::new(0);
+static USABLE_CALLS: AtomicU8 = AtomicU8::new(0);
+static USABLE_LAST: AtomicBool = AtomicBool::new(false);
+static STOP_AT_POLL_QUERY: AtomicBool = AtomicBool::new(false);
+// first / second measurement handed to the controller (timestamps as raw u64)
+static M0_SENDER_TS: AtomicU64 = AtomicU64::new(0);
+static M0_RECEIVER_TS: AtomicU64 = AtomicU64::new(0);
+static M1_SENDER_TS: AtomicU64 = AtomicU64::new(0);
+static M1_RECEIVER_TS: AtomicU64 = AtomicU64::new(0);
+
+fn ts_raw(t: NtpTimestamp) -> u64 {
+    u64::from_be_bytes(t.to_bits())
+}
+fn ts(v: u64) -> NtpTimestamp {
+    NtpTimestamp::from_bits(v.to_be_bytes())
+}
+fn any_ts() -> NtpTimestamp {
+    ts(kani::any())
+}
+fn any_poll() -> PollInterval {
+    PollInterval::from_byte(kani::any())
+}
+fn plog(p: PollInterval) -> i8 {
+    p.as_log()
+}
+
+struct RecCtl {
+    desired: PollInterval,
+}
+impl SourceController for RecCtl {
+    fn handle_measurement(&mut self, m: Measurement) {
+        let n = MEAS_CALLS.load(Relaxed);
+        if n == 0 {
+            M0_SENDER_TS.store(ts_raw(m.sender_ts), Relaxed);
+            M0_RECEIVER_TS.store(ts_raw(m.receiver_ts), Relaxed);
+        } else if n == 1 {
+            M1_SENDER_TS.store(ts_raw(m.sender_ts), Relaxed);
+            M1_RECEIVER_TS.store(ts_raw(m.receiver_ts), Relaxed);
+        }
+        MEAS_CALLS.store(n.saturating_add(1), Relaxed);
+    }
+    fn set_usable(&mut self, usable: bool) {
+        USABLE_CALLS.store(USABLE_CALLS.load(Relaxed).saturating_add(1), Relaxed);
+        USABLE_LAST.store(usable, Relaxed);
+    }
+    fn desired_poll_interval(&self) -> PollInterval {
+        if STOP_AT_POLL_QUERY.load(Relaxed) {
+            // harnesses about decisions taken *before* the poll interval is queried set this flag:
+            // getting here is then a failure, and the path ends (keeps the symbolic execution small)
+            assert!(false, "handle_timer continued past the decision under contract");
+            kani::assume(false);
+        }
+        self.desired
+    }
+    fn observe(&self) -> ObservableSourceTimedata {
+        ObservableSourceTimedata::default()
+    }
+}
+
+// ---------------------------------------------------------------- server ids
+/// a fixed, valid server id (for harnesses in which the server id plays no role)
+fn fixed_server_id() -> ServerId {
+    ServerId::from_parts([1, 2, 3, 4, 5, 6, 7, 8, 9, 10])
+}
+/// any server id satisfying the type invariant established by ServerId::new:
+/// ten 12-bit values, sorted, pairwise distinct
+fn any_server_id() -> (ServerId, [u16; 10]) {
+    let v: [u16; 10] = kani::any();
+    kani::assume(v[9] < 4096);
+    kani::assume(v[0] < v[1] && v[1] < v[2] && v[2] < v[3] && v[3] < v[4] && v[4] < v[5]);
+    kani::assume(v[5] < v[6] && v[6] < v[7] && v[7] < v[8] && v[8] < v[9]);
+    (ServerId::from_parts(v), v)
+}
+
+// ---------------------------------------------------------------- arbitrary source states
+fn any_version() -> ProtocolVersion {
+    match kani::any::<u8>() % 4 {
+        0 => ProtocolVersion::V4,
+        1 => ProtocolVersion::V4UpgradingToV5 { tries_left: kani::any() },
+        2 => ProtocolVersion::UpgradedToV5,
+        _ => ProtocolVersion::V5,
+    }
+}
+fn any_addr_v4() -> SocketAddr {
+    let o: [u8; 4] = kani::any();
+    SocketAddr::new(IpAddr::V4(std::net::Ipv4Addr::new(o[0], o[1], o[2], o[3])), kani::any())
+}
+fn any_ident() -> RequestIdentifier {
+    let uid: Option<[u8; 32]> = if kani::any() { Some(kani::any()) } else { None };
+    RequestIdentifier::from_parts((any_ts(), uid))
+}
+
+/// Every field the properties talk about is symbolic; `nts`, the pending request and the shared
+/// system info are supplied by the caller. Fixed: empty send buffer, freshly created remote Bloom
+/// filter, empty snapshot map (none of them is read by the decisions under contract).
+fn any_source(
+    nts: Option<Box<SourceNtsData>>,
+    pending: Option<(RequestIdentifier, tokio::time::Instant)>,
+    info: NtpSourceInfo,
+) -> NtpSource<RecCtl> {
+    let source_addr = any_addr_v4();
+    NtpSource {
+        nts,
+        last_poll_interval: any_poll(),
+        remote_min_poll_interval: any_poll(),
+        current_request_identifier: pending,
+        have_deny_rstr_response: kani::any(),
+        stratum: kani::any(),
+        reference_id: ReferenceId::from_int(kani::any()),
+        source_addr,
+        source_id: ReferenceId::from_int(kani::any()),
+        reach: Reach(kani::any()),
+        tries: kani::any(),
+        controller: RecCtl { desired: any_poll() },
+        source_config: SourceConfig {
+            poll_interval_limits: PollIntervalLimits { min: any_poll(), max: any_poll() },
+            initial_poll_interval: any_poll(),
+        },
+        buffer: [0; 1024],
+        protocol_version: any_version(),
+        bloom_filter: RemoteBloomFilter::new(16).unwrap(),
+        id: ClockId(kani::any()),
+        source_info: Arc::new(RwLock::new(info)),
+        source_snapshots: Arc::new(Mutex::new(HashMap::new())),
+    }
+}
+fn plain_info() -> NtpSourceInfo {
+    NtpSourceInfo { ip_list: Arc::from(Vec::<IpAddr>::new()), server_id: fixed_server_id(), local_stratum: kani::any() }
+}
+
+/// the scalar state of a source, for frame conditions ("nothing else changed"). All-integer on
+/// purpose: derived equality on byte arrays / socket addresses goes through memcmp, which CBMC
+/// has to unroll at every comparison.
+#[derive(Clone, Copy, PartialEq, Eq)]
+struct Snap {
+    last_poll: PollInterval,
+    remote_min: PollInterval,
+    pending: bool,
+    pending_origin: u64,
+    pending_has_uid: bool,
+    pending_uid: (u64, u64, u64, u64),
+    pending_deadline: Option<tokio::time::Instant>,
+    have_deny: bool,
+    stratum: u8,
+    reference_id: ReferenceId,
+    addr_ip: u32,
+    addr_port: u16,
+    source_id: ReferenceId,
+    reach: u8,
+    tries: usize,
+    desired: PollInterval,
+    limits: PollIntervalLimits,
+    version: ProtocolVersion,
+    id: ClockId,
+    cookies: Option<usize>,
+    bloom_full: bool,
+    snapshots: usize,
+}
+fn words(u: &[u8; 32]) -> (u64, u64, u64, u64) {
+    (
+        u64::from_be_bytes([u[0], u[1], u[2], u[3], u[4], u[5], u[6], u[7]]),
+        u64::from_be_bytes([u[8], u[9], u[10], u[11], u[12], u[13], u[14], u[15]]),
+        u64::from_be_bytes([u[16], u[17], u[18], u[19], u[20], u[21], u[22], u[23]]),
+        u64::from_be_bytes([u[24], u[25], u[26], u[27], u[28], u[29], u[30], u[31]]),
+    )
+}
+fn snap(s: &NtpSource<RecCtl>) -> Snap {
+    let (pending, pending_origin, pending_has_uid, pending_uid, pending_deadline) = match &s.current_request_identifier {
+        None => (false, 0, false, (0, 0, 0, 0), None),
+        Some((id, dl)) => {
+            let (o, u): (NtpTimestamp, Option<[u8; 32]>) = id.parts();
+            match u {
+                None => (true, ts_raw(o), false, (0, 0, 0, 0), Some(*dl)),
+                Some(u) => (true, ts_raw(o), true, words(&u), Some(*dl)),
+            }
+        }
+    };
+    let (addr_ip, addr_port) = match s.source_addr {
+        SocketAddr::V4(a) => (u32::from_be_bytes(a.ip().octets()), a.port()),
+        SocketAddr::V6(a) => (0, a.port()),
+    };
+    Snap {
+        last_poll: s.last_poll_interval,
+        remote_min: s.remote_min_poll_interval,
+        pending,
+        pending_origin,
+        pending_has_uid,
+        pending_uid,
+        pending_deadline,
+        have_deny: s.have_deny_rstr_response,
+        stratum: s.stratum,
+        reference_id: s.reference_id,
+        addr_ip,
+        addr_port,
+        source_id: s.source_id,
+        reach: s.reach.0,
+        tries: s.tries,
+        desired: s.controller.desired,
+        limits: s.source_config.poll_interval_limits,
+        version: s.protocol_version,
+        id: s.id,
+        cookies: s.nts.as_ref().map(|n| n.cookies.len()),
+        bloom_full: s.bloom_filter.full_filter().is_some(),
+        snapshots: s.source_snapshots.lock().unwrap().len(),
+    }
+}
+fn no_controller_calls() -> bool {
+    MEAS_CALLS.load(Relaxed) == 0 && USABLE_CALLS.load(Relaxed) == 0
+}
+
+// ================================================================ C11: reach register
+
+/// Reach::{never, is_reachable, received_packet, poll, unanswered_polls}: all 256 register values.
+#[kani::proof]
+fn c11_p_reach_ops() {
+    assert!(Reach::never().0 == 0 && !Reach::never().is_reachable());
+    assert!(Reach::never().unanswered_polls() == 8);
+    let r0: u8 = kani::any();
+    let r = Reach(r0);
+    // reachable <=> one of the last eight polls was answered
+    assert!(r.is_reachable() == (r0 != 0));
+    // number of polls since the last answer = index of the lowest set bit, 8 if none
+    let mut idx: u32 = 8;
+    let mut i: u32 = 8;
+    while i > 0 {
+        i -= 1;
+        if (r0 >> i) & 1 == 1 {
+            idx = i;
+        }
+    }
+    assert!(r.unanswered_polls() == idx);
+    assert!((r.unanswered_polls() == 8) == !r.is_reachable());
+    let mut a = r;
+    a.received_packet();
+    assert!(a.0 == r0 | 1 && a.is_reachable() && a.unanswered_polls() == 0);
+    let mut p = r;
+    p.poll();
+    // shift: the answer bit of the oldest poll falls out, the new poll is unanswered
+    assert!(p.0 as u16 == ((r0 as u16) << 1) & 0xFF);
+    assert!(p.unanswered_polls() == core::cmp::min(r.unanswered_polls() + 1, 8));
+    kani::cover!(r0 == 0x80 && !p.is_reachable(), "last answer ages out");
+}
+
+/// lemma: from ANY register value, after an answer and then k unanswered polls (k <= 9):
+/// unanswered_polls == min(k, 8) and reachable <=> k < 8. (k > 9 adds nothing: the register is 0
+/// from k = 8 on and poll() maps 0 to 0 -- checked in the same harness.)
+#[kani::proof]
+#[kani::unwind(11)]
+fn c11_p_reach_lemma_k_polls() {
+    let mut r = Reach(kani::any());
+    r.received_packet();
+    let k: u32 = kani::any();
+    kani::assume(k <= 9);
+    let mut i = 0;
+    while i < k {
+        r.poll();
+        i += 1;
+    }
+    assert!(r.unanswered_polls() == core::cmp::min(k, 8));
+    assert!(r.is_reachable() == (k < 8));
+    if k >= 8 {
+        assert!(r.0 == 0);
+        r.poll();
+        assert!(r.0 == 0);
+    }
+    kani::cover!(k == 9, "k = 9 reachable");
+    kani::cover!(k == 7 && r.is_reachable(), "k = 7 still reachable");
+}
+
+/// a source that answers every poll is never unreachable at its timer: invariant "bit 0 set"
+/// (established by received_packet) gives reachable after the next poll as well.
+#[kani::proof]
+fn c11_p_reach_answering_stays_reachable() {
+    let mut r = Reach(kani::any());
+    r.received_packet();
+    assert!(r.is_reachable());
+    r.poll();
+    assert!(r.is_reachable() && r.unanswered_polls() == 1);
+    r.received_packet();
+    assert!(r.unanswered_polls() == 0);
+    kani::cover!(true, "reachable");
+}
+
+#[kani::proof]
+fn c11_canary_reach_nine_polls() {
+    // false: claims nine bits of memory
+    let mut r = Reach(kani::any());
+    r.received_packet();
+    let mut i = 0;
+    while i < 8 {
+        r.poll();
+        i += 1;
+    }
+    assert!(r.is_reachable());
+}
+
+// ---------------------------------------------------------------- Duration::mul_f64 as a recorded call
+// The jitter expression `interval.as_system_duration().mul_f64(gen_range(1.01..=1.05))` is split:
+// the harnesses of handle_timer check WHAT is multiplied (recorded here, result arbitrary), and
+// c10_p_mul_f64_jitter_range checks the real Duration::mul_f64 on exactly those arguments.
+static MULF_CALLS: AtomicU8 = AtomicU8::new(0);
+static MULF_SELF_NS: AtomicU64 = AtomicU64::new(0);
+static MULF_RHS_BITS: AtomicU64 = AtomicU64::new(0);
+static MULF_RET_NS: AtomicU64 = AtomicU64::new(0);
+fn mul_f64_rec(d: Duration, rhs: f64) -> Duration {
+    MULF_CALLS.store(MULF_CALLS.load(Relaxed).saturating_add(1), Relaxed);
+    MULF_SELF_NS.store(d.as_nanos() as u64, Relaxed);
+    MULF_RHS_BITS.store(rhs.to_bits(), Relaxed);
+    let r: u64 = kani::any();
+    MULF_RET_NS.store(r, Relaxed);
+    Duration::from_nanos(r)
+}
+
+// ---------------------------------------------------------------- NtpPacket::serialize as a recorded call
+// Quick-tier harnesses of handle_timer check the packet object handed to the encoder (version,
+// poll, upgrade marker, request id); the encoder itself (bytes == header fields) is C24's subject
+// and the thorough-tier twins (c12_tp_timer_wire_*) run the real encoder and look at the bytes.
+static SER_CALLS: AtomicU8 = AtomicU8::new(0);
+static SER_VERSION: AtomicU8 = AtomicU8::new(0);
+static SER_POLL: AtomicU8 = AtomicU8::new(0);
+static SER_MODE_CLIENT: AtomicBool = AtomicBool::new(false);
+static SER_UPGRADE: AtomicBool = AtomicBool::new(false);
+static SER_ECHO: AtomicU64 = AtomicU64::new(0);
+static SER_N_AUTH: AtomicU8 = AtomicU8::new(0);
+static SER_N_UNTR: AtomicU8 = AtomicU8::new(0);
+static SER_HAS_CIPHER: AtomicBool = AtomicBool::new(false);
+fn serialize_rec<'a>(
+    pkt: &NtpPacket<'a>,
+    w: &mut Cursor<&mut [u8]>,
+    cipher: &(impl CipherProvider + ?Sized),
+    _desired_size: Option<usize>,
+) -> std::io::Result<()>
+where
+    'a: 'a,
+{
+    SER_CALLS.store(SER_CALLS.load(Relaxed).saturating_add(1), Relaxed);
+    SER_VERSION.store(pkt.version().as_u8(), Relaxed);
+    SER_POLL.store(pkt.poll().as_byte(), Relaxed);
+    SER_MODE_CLIENT.store(pkt.mode() == NtpAssociationMode::Client, Relaxed);
+    SER_UPGRADE.store(pkt.is_upgrade(), Relaxed);
+    let echo = match pkt.header() {
+        NtpHeader::V5(h) => h.client_cookie.0,
+        _ => pkt.transmit_timestamp().to_bits(),
+    };
+    SER_ECHO.store(u64::from_be_bytes(echo), Relaxed);
+    let (na, _ne, nu): (usize, usize, usize) = pkt.parts();
+    SER_N_AUTH.store(na as u8, Relaxed);
+    SER_N_UNTR.store(nu as u8, Relaxed);
+    SER_HAS_CIPHER.store(cipher.get(&[]).is_some(), Relaxed);
+    w.set_position(48);
+    Ok(())
+}
+
+fn single_action(mut it: NtpSourceActionIterator) -> Option<NtpSourceAction> {
+    let a = it.next();
+    if it.next().is_some() {
+        return None;
+    }
+    a
+}
+
+harness! {
+    #[kani::unwind(10)]
+    fn c11_p_timer_unreachable_resets() {
+        let pending = if kani::any() { Some((any_ident(), tokio::time::Instant::now())) } else { None };
+        let mut s = any_source(None, pending, plain_info());
+        kani::assume(!s.reach.is_reachable() && s.tries >= 3);
+        let before = snap(&s);
+        STOP_AT_POLL_QUERY.store(true, Relaxed);
+        let acts = s.handle_timer();
+        let a = single_action(acts);
+        // exactly one action: Demobilize iff a deny was seen, else Reset; nothing is sent
+        match a {
+            Some(NtpSourceAction::Demobilize) => assert!(before.have_deny),
+            Some(NtpSourceAction::Reset) => assert!(!before.have_deny),
+            _ => assert!(false, "unreachable source must produce exactly [Reset] or [Demobilize]"),
+        }
+        assert!(snap(&s) == before);
+        assert!(no_controller_calls());
+        kani::cover!(before.have_deny, "demobilize reachable");
+        kani::cover!(!before.have_deny && before.tries == 3, "reset at third try reachable");
+    }
+}
+
+
+// ================================================================ handle_timer: the send path
+
+/// result of a handle_timer call that is expected to poll: the datagram and the timer
+fn send_and_timer(mut it: NtpSourceActionIterator) -> Option<(Vec<u8>, Duration)> {
+    let a = it.next();
+    let b = it.next();
+    if it.next().is_some() {
+        return None;
+    }
+    match (a, b) {
+        (Some(NtpSourceAction::Send(v)), Some(NtpSourceAction::SetTimer(d))) => Some((v, d)),
+        _ => None,
+    }
+}
+
+/// contract of handle_timer for a plain (non-NTS) source that is reachable or still starting up.
+/// Written from C12 (version sent per state, fallback), C10 (poll byte, timer), C11 (a poll is
+/// sent, reach/tries bookkeeping), C08 (pending request = what was sent, deadline now + 5 s).
+fn timer_plain_send_contract(version: ProtocolVersion, wire: bool) {
+    let pending = if kani::any() { Some((any_ident(), tokio::time::Instant::now())) } else { None };
+    let mut s = any_source(None, pending, plain_info());
+    s.protocol_version = version;
+    kani::assume(s.reach.is_reachable() || s.tries < 3);
+    let before = snap(&s);
+    let missed_before = s.reach.unanswered_polls();
+    let t0 = tokio::time::Instant::now();
+    let acts = s.handle_timer();
+    let t1 = tokio::time::Instant::now();
+    let after = snap(&s);
+    let Some((pkt, timer)) = send_and_timer(acts) else {
+        assert!(false, "a reachable / starting plain source must send a poll and set its timer");
+        return;
+    };
+    // --- C12: version state after the timer and version on the wire
+    let version_after = match version {
+        ProtocolVersion::UpgradedToV5 if missed_before >= 2 => ProtocolVersion::V4,
+        v => v,
+    };
+    assert!(after.version == version_after);
+    assert!(pkt.len() >= 48);
+    // what was sent: from the datagram (wire) or from the packet object given to the encoder
+    let (wire_version, mode_client, upgrade_marker, poll_byte, echo_v) = if wire {
+        let v = (pkt[0] >> 3) & 7;
+        let e = if v == 5 { &pkt[24..32] } else { &pkt[40..48] };
+        let mut eb = [0u8; 8];
+        eb.copy_from_slice(e);
+        (v, pkt[0] & 7 == 3, pkt[16..24] == *b"NTP5DRFT", pkt[2], u64::from_be_bytes(eb))
+    } else {
+        assert!(SER_CALLS.load(Relaxed) == 1 && !SER_HAS_CIPHER.load(Relaxed));
+        assert!(SER_N_AUTH.load(Relaxed) == 0);
+        (SER_VERSION.load(Relaxed), SER_MODE_CLIENT.load(Relaxed), SER_UPGRADE.load(Relaxed), SER_POLL.load(Relaxed), SER_ECHO.load(Relaxed))
+    };
+    assert!(mode_client);
+    match version_after {
+        ProtocolVersion::V4 => {
+            assert!(wire_version == 4);
+            assert!(!upgrade_marker);
+        }
+        ProtocolVersion::V4UpgradingToV5 { .. } => {
+            assert!(wire_version == 4);
+            assert!(upgrade_marker);
+        }
+        ProtocolVersion::UpgradedToV5 | ProtocolVersion::V5 => assert!(wire_version == 5),
+    }
+    // --- C10: poll exponent on the wire == max(desired, remote minimum) == current_poll_interval
+    let want_poll = core::cmp::max(plog(before.desired), plog(before.remote_min));
+    assert!(poll_byte as i8 == want_poll);
+    assert!(plog(after.last_poll) == want_poll);
+    assert!(plog(s.current_poll_interval()) == want_poll);
+    // next poll = (system duration of that interval) x (a factor in [1.01, 1.05]); the product
+    // itself is the contract of Duration::mul_f64, see c10_p_mul_f64_jitter_range
+    let base = PollInterval::from_byte(want_poll as u8).as_system_duration();
+    assert!(MULF_CALLS.load(Relaxed) == 1);
+    assert!(MULF_SELF_NS.load(Relaxed) as u128 == base.as_nanos());
+    let factor = f64::from_bits(MULF_RHS_BITS.load(Relaxed));
+    assert!(factor >= 1.01 && factor <= 1.05);
+    assert!(timer == Duration::from_nanos(MULF_RET_NS.load(Relaxed)));
+    // --- C11: bookkeeping
+    assert!(after.reach == before.reach << 1);
+    assert!(after.tries == before.tries.saturating_add(1));
+    // --- C08: the pending request is the one just sent and expires 5 s from now
+    assert!(after.pending && !after.pending_has_uid, "pending request recorded, without uid");
+    let Some(deadline) = after.pending_deadline else {
+        assert!(false, "deadline recorded");
+        return;
+    };
+    assert!(echo_v == after.pending_origin);
+    assert!(deadline >= t0 + POLL_WINDOW && deadline <= t1 + POLL_WINDOW);
+    // --- frame
+    assert!(after.remote_min == before.remote_min && after.have_deny == before.have_deny);
+    assert!(after.stratum == before.stratum && after.reference_id == before.reference_id);
+    assert!(after.source_id == before.source_id && after.addr_ip == before.addr_ip && after.addr_port == before.addr_port);
+    assert!(after.limits == before.limits && after.desired == before.desired && after.id == before.id);
+    assert!(MEAS_CALLS.load(Relaxed) == 0 && USABLE_CALLS.load(Relaxed) == 1);
+    assert!(after.snapshots == 1);
+    // C33 link: the usable flag given to the controller is accept_synchronization of the new state
+    let usable_want = {
+        let info = s.source_info.read().unwrap();
+        NtpSourceSnapshot::from_source(&s).accept_synchronization(info.local_stratum, &info.ip_list, info.server_id).is_ok()
+    };
+    assert!(USABLE_LAST.load(Relaxed) == usable_want);
+    kani::cover!(true, "send path reachable");
+    kani::cover!(matches!(version, ProtocolVersion::UpgradedToV5) && after.version == ProtocolVersion::V4, "fallback reachable (only in the UpgradedToV5 harness)");
+}
+
+
+
+// ================================================================ C12: expected incoming version
+
+#[kani::proof]
+fn c12_p_expected_incoming_version() {
+    let v = any_version();
+    let inc = match kani::any::<u8>() % 3 {
+        0 => NtpVersion::V3,
+        1 => NtpVersion::V4,
+        _ => NtpVersion::V5,
+    };
+    let got = v.is_expected_incoming_version(inc);
+    // table from the statement: a V4 association accepts V4 (and V3, its wire-compatible
+    // predecessor); while upgrading only V4 answers; once upgraded / configured for V5 only V5
+    let want = match (v, inc) {
+        (ProtocolVersion::V4, NtpVersion::V4) | (ProtocolVersion::V4, NtpVersion::V3) => true,
+        (ProtocolVersion::V4UpgradingToV5 { .. }, NtpVersion::V4) => true,
+        (ProtocolVersion::UpgradedToV5, NtpVersion::V5) | (ProtocolVersion::V5, NtpVersion::V5) => true,
+        _ => false,
+    };
+    assert!(got == want);
+    assert!(ProtocolVersion::v4_upgrading_to_v5_with_default_tries() == ProtocolVersion::V4UpgradingToV5 { tries_left: 8 });
+    kani::cover!(got, "accepting case reachable");
+}
+
+// ================================================================ handle_incoming: decoder replaced by its contract
+//
+// `NtpPacket::deserialize` is out of CBMC's reach as a whole (see DESIGN.md 2.4); handle_incoming is
+// verified against the decoder's *contract*: it returns Err(_) or Ok(packet) where the packet has an
+// arbitrary V3/V4/V5 header (every field symbolic) and up to two extension fields per list
+// (authenticated / encrypted / untrusted) of any kind. "Unauthenticated" = the authenticated and
+// the encrypted list are empty (nothing verified under the s2c key). The harness fixes the
+// (symbolic) description of the next decoded packet in NEXT_PKT; the stub builds the packet from it.
+
+#[derive(Clone, Copy)]
+struct EfSpec {
+    kind: u8,
+    data: [u8; 32],
+    len_sel: u8,
+    num: u16,
+}
+#[derive(Clone, Copy)]
+struct PktSpec {
+    parse_ok: bool,
+    version: u8, // 3, 4, 5
+    leap: u8,
+    mode: u8,
+    stratum: u8,
+    poll: i8,
+    precision: i8,
+    root_delay: i64,
+    root_dispersion: i64,
+    reference_id: u32,
+    reference_ts: u64,
+    origin: u64, // V3/V4 origin timestamp, V5 client cookie
+    recv: u64,
+    xmit: u64,
+    timescale: u8,
+    era: u8,
+    synchronized: bool,
+    interleaved: bool,
+    authnak: bool,
+    server_cookie: [u8; 8],
+    n: [u8; 3], // lengths of authenticated / encrypted / untrusted
+    efs: [[EfSpec; 2]; 3],
+}
+static NEXT_PKT: Mutex<Option<PktSpec>> = Mutex::new(None);
+
+const EF_UID: u8 = 0;
+const EF_COOKIE: u8 = 1;
+const EF_REFID_RESP: u8 = 7;
+static RESP_BYTES_16: [u8; 16] = [0x5a; 16];
+static RESP_BYTES_8: [u8; 8] = [0xa5; 8];
+
+fn build_ef(e: &EfSpec) -> ExtensionField<'static> {
+    match e.kind {
+        // unique identifier: 32 bytes, or one shorter / one longer
+        0 => match e.len_sel % 3 {
+            0 => ExtensionField::UniqueIdentifier(e.data.to_vec().into()),
+            1 => ExtensionField::UniqueIdentifier(e.data[..31].to_vec().into()),
+            _ => {
+                let mut v = e.data.to_vec();
+                v.push(e.len_sel);
+                ExtensionField::UniqueIdentifier(v.into())
+            }
+        },
+        // cookie: tagged by its first two bytes
+        1 => ExtensionField::NtsCookie(e.data[..2].to_vec().into()),
+        2 => ExtensionField::NtsCookiePlaceholder { cookie_length: e.num },
+        3 => ExtensionField::InvalidNtsEncryptedField,
+        4 => ExtensionField::DraftIdentification(std::borrow::Cow::Borrowed(if e.len_sel & 1 == 0 { "draft-ietf-ntp-ntpv5-09" } else { "other" })),
+        5 => ExtensionField::Padding(e.num as usize),
+        6 => match crate::packet::v5::extension_fields::ReferenceIdRequest::new(16, (e.num % 32) * 16) {
+            Some(r) => ExtensionField::ReferenceIdRequest(r),
+            None => ExtensionField::InvalidNtsEncryptedField,
+        },
+        // reference id response: a well-sized chunk (16 bytes) or a wrongly sized one
+        7 => ExtensionField::ReferenceIdResponse(crate::packet::v5::extension_fields::ReferenceIdResponse::decode(
+            if e.len_sel & 1 == 0 { &RESP_BYTES_16[..] } else { &RESP_BYTES_8[..] },
+        )),
+        _ => ExtensionField::Unknown { type_id: e.num, data: e.data[..1].to_vec().into() },
+    }
+}
+fn leap_of(b: u8) -> NtpLeapIndicator {
+    match b % 4 {
+        0 => NtpLeapIndicator::NoWarning,
+        1 => NtpLeapIndicator::Leap61,
+        2 => NtpLeapIndicator::Leap59,
+        _ => NtpLeapIndicator::Unknown,
+    }
+}
+fn mode_of(b: u8) -> NtpAssociationMode {
+    match b % 8 {
+        0 => NtpAssociationMode::Reserved,
+        1 => NtpAssociationMode::SymmetricActive,
+        2 => NtpAssociationMode::SymmetricPassive,
+        3 => NtpAssociationMode::Client,
+        4 => NtpAssociationMode::Server,
+        5 => NtpAssociationMode::Broadcast,
+        6 => NtpAssociationMode::Control,
+        _ => NtpAssociationMode::Private,
+    }
+}
+fn dur(v: i64) -> NtpDuration {
+    NtpDuration::from_bits(v.to_be_bytes())
+}
+fn build_packet(p: &PktSpec) -> NtpPacket<'static> {
+    let header = if p.version == 5 {
+        NtpHeader::V5(NtpHeaderV5 {
+            leap: leap_of(p.leap),
+            // the V5 decoder only yields Request (3) / Response (4)
+            mode: if p.mode % 8 == 4 { NtpMode::Response } else { NtpMode::Request },
+            stratum: p.stratum,
+            poll: PollInterval::from_byte(p.poll as u8),
+            precision: p.precision,
+            timescale: match p.timescale % 4 {
+                0 => NtpTimescale::Utc,
+                1 => NtpTimescale::Tai,
+                2 => NtpTimescale::Ut1,
+                _ => NtpTimescale::LeapSmearedUtc,
+            },
+            era: NtpEra(p.era),
+            flags: NtpFlags { synchronized: p.synchronized, interleaved_mode: p.interleaved, authnak: p.authnak },
+            root_delay: dur(p.root_delay),
+            root_dispersion: dur(p.root_dispersion),
+            server_cookie: NtpServerCookie(p.server_cookie),
+            client_cookie: NtpClientCookie(p.origin.to_be_bytes()),
+            receive_timestamp: ts(p.recv),
+            transmit_timestamp: ts(p.xmit),
+        })
+    } else {
+        let h = NtpHeaderV3V4::from_parts(V3V4Parts {
+            leap: leap_of(p.leap),
+            mode: mode_of(p.mode),
+            stratum: p.stratum,
+            poll: PollInterval::from_byte(p.poll as u8),
+            precision: p.precision,
+            root_delay: dur(p.root_delay),
+            root_dispersion: dur(p.root_dispersion),
+            reference_id: ReferenceId::from_int(p.reference_id),
+            reference_timestamp: ts(p.reference_ts),
+            origin_timestamp: ts(p.origin),
+            receive_timestamp: ts(p.recv),
+            transmit_timestamp: ts(p.xmit),
+        });
+        if p.version == 3 { NtpHeader::V3(h) } else { NtpHeader::V4(h) }
+    };
+    let mut a: Vec<ExtensionField<'static>> = Vec::new();
+    let mut e: Vec<ExtensionField<'static>> = Vec::new();
+    let mut u: Vec<ExtensionField<'static>> = Vec::new();
+    let mut i = 0;
+    while i < 2 {
+        if (i as u8) < p.n[0] {
+            a.push(build_ef(&p.efs[0][i]));
+        }
+        if (i as u8) < p.n[1] {
+            e.push(build_ef(&p.efs[1][i]));
+        }
+        if (i as u8) < p.n[2] {
+            u.push(build_ef(&p.efs[2][i]));
+        }
+        i += 1;
+    }
+    NtpPacket::from_parts((header, (a, e, u)))
+}
+/// the generator stub standing in for NtpPacket::deserialize
+fn deserialize_stub<'a>(
+    _data: &'a [u8],
+    _cipher: &(impl CipherProvider + ?Sized),
+) -> Result<(NtpPacket<'a>, Option<crate::keyset::DecodedServerCookie>), crate::packet::PacketParsingError<'a>>
+where
+    'a: 'a,
+{
+    let spec = NEXT_PKT.lock().unwrap().take();
+    match spec {
+        Some(p) if p.parse_ok => Ok((build_packet(&p), None)),
+        _ => Err(crate::packet::PacketParsingError::IncorrectLength),
+    }
+}
+
+fn any_ef(kinds: &[u8]) -> EfSpec {
+    let k: usize = kani::any();
+    kani::assume(k < kinds.len());
+    EfSpec { kind: kinds[k], data: kani::any(), len_sel: kani::any(), num: kani::any() }
+}
+const NO_EF: EfSpec = EfSpec { kind: 3, data: [0; 32], len_sel: 0, num: 0 };
+/// arbitrary header of the given wire version (3/4 or 5); extension-field lists filled by caller
+fn any_pkt(v5: bool) -> PktSpec {
+    let version: u8 = if v5 { 5 } else if kani::any() { 3 } else { 4 };
+    PktSpec {
+        parse_ok: kani::any(),
+        version,
+        leap: kani::any(),
+        mode: kani::any(),
+        stratum: kani::any(),
+        poll: kani::any(),
+        precision: kani::any(),
+        root_delay: kani::any(),
+        root_dispersion: kani::any(),
+        reference_id: kani::any(),
+        reference_ts: kani::any(),
+        origin: kani::any(),
+        recv: kani::any(),
+        xmit: kani::any(),
+        timescale: kani::any(),
+        era: kani::any(),
+        synchronized: kani::any(),
+        interleaved: kani::any(),
+        authnak: kani::any(),
+        server_cookie: kani::any(),
+        n: [0, 0, 0],
+        efs: [[NO_EF; 2]; 3],
+    }
+}
+
+// ---- oracle: what the statements say about a decoded packet, in terms of the spec only
+fn spec_kiss(p: &PktSpec) -> bool {
+    p.stratum == 0
+}
+#[derive(Clone, Copy, PartialEq, Eq)]
+enum Kiss {
+    None,
+    Rate,
+    Deny, // DENY or RSTR
+    Ntsn,
+    Unknown,
+}
+/// V3/V4: the reference id carries the code. V5 has no code field: "DENY" is poll == 127 (never),
+/// "RATE" is a poll field above the interval we used, the auth-NAK flag is the NTS NAK.
+/// (precedence for V5 packets that are several at once: as dispatched -- rate, deny, nak.)
+fn spec_kiss_class(p: &PktSpec, last_poll: i8) -> Kiss {
+    if p.stratum != 0 {
+        return Kiss::None;
+    }
+    if p.version == 5 {
+        if p.poll > last_poll && p.poll != 127 {
+            Kiss::Rate
+        } else if p.poll == 127 {
+            Kiss::Deny
+        } else if p.authnak {
+            Kiss::Ntsn
+        } else {
+            Kiss::Unknown
+        }
+    } else {
+        let c = p.reference_id;
+        if c == code(b"RATE") {
+            Kiss::Rate
+        } else if c == code(b"DENY") || c == code(b"RSTR") {
+            Kiss::Deny
+        } else if c == code(b"NTSN") {
+            Kiss::Ntsn
+        } else {
+            Kiss::Unknown
+        }
+    }
+}
+const fn code(c: &[u8; 4]) -> u32 {
+    u32::from_be_bytes(*c)
+}
+fn spec_mode_server(p: &PktSpec) -> bool {
+    p.mode % 8 == 4
+}
+fn spec_expected_version(v: ProtocolVersion, wire: u8) -> bool {
+    match v {
+        ProtocolVersion::V4 => wire == 4 || wire == 3,
+        ProtocolVersion::V4UpgradingToV5 { .. } => wire == 4,
+        ProtocolVersion::UpgradedToV5 | ProtocolVersion::V5 => wire == 5,
+    }
+}
+fn spec_is_upgrade(p: &PktSpec) -> bool {
+    p.version == 4 && p.reference_ts == u64::from_be_bytes(*b"NTP5DRFT")
+}
+/// uid fields of list l: (some present, all present ones match)
+fn spec_uid(p: &PktSpec, l: usize, uid: &[u8; 32]) -> (bool, bool) {
+    let mut any = false;
+    let mut all_ok = true;
+    let mut i = 0;
+    while i < 2 {
+        if (i as u8) < p.n[l] && p.efs[l][i].kind == EF_UID {
+            any = true;
+            // a matching uid field carries at least the 32 bytes we sent, first
+            let long_enough = p.efs[l][i].len_sel % 3 != 1;
+            if !(long_enough && words(&p.efs[l][i].data) == words(uid)) {
+                all_ok = false;
+            }
+        }
+        i += 1;
+    }
+    (any, all_ok)
+}
+fn spec_unauthenticated(p: &PktSpec) -> bool {
+    p.n[0] == 0 && p.n[1] == 0
+}
+/// "answers the pending request and is authenticated when NTS is used" (C07/C08):
+/// origin / client cookie equals what we sent; with a uid in the request: a matching uid among the
+/// authenticated or encrypted fields and no contradicting one there.
+fn spec_bound_to_request(p: &PktSpec, origin: u64, uid: Option<[u8; 32]>) -> bool {
+    if p.origin != origin {
+        return false;
+    }
+    match uid {
+        None => true,
+        Some(u) => {
+            let (a_any, a_ok) = spec_uid(p, 0, &u);
+            let (e_any, e_ok) = spec_uid(p, 1, &u);
+            (a_any || e_any) && a_ok && e_ok
+        }
+    }
+}
+fn spec_cookies_in(p: &PktSpec, l: usize) -> usize {
+    let mut c = 0;
+    let mut i = 0;
+    while i < 2 {
+        if (i as u8) < p.n[l] && p.efs[l][i].kind == EF_COOKIE {
+            c += 1;
+        }
+        i += 1;
+    }
+    c
+}
+
+// ---- model cipher for NTS sources (never invoked by handle_incoming: the decoder is stubbed)
+struct ModelCipher;
+impl zeroize::ZeroizeOnDrop for ModelCipher {}
+impl Cipher for ModelCipher {
+    fn encrypt(&self, _buffer: &mut [u8], _plaintext_length: usize, _associated_data: &[u8]) -> std::io::Result<crate::packet::EncryptResult> {
+        Err(std::io::ErrorKind::Other.into())
+    }
+    fn decrypt(&self, _nonce: &[u8], _ciphertext: &[u8], _associated_data: &[u8]) -> Result<Vec<u8>, crate::packet::DecryptError> {
+        Err(crate::packet::DecryptError)
+    }
+    fn key_bytes(&self) -> &[u8] {
+        &[]
+    }
+}
+/// NTS session data with an arbitrary well-formed cookie stash (tagged one-byte cookies)
+fn any_nts() -> Box<SourceNtsData> {
+    let read: usize = kani::any();
+    let valid: usize = kani::any();
+    kani::assume(read < 8 && valid <= 8);
+    let t: [u8; 8] = kani::any();
+    let cookies = [vec![t[0]], vec![t[1]], vec![t[2]], vec![t[3]], vec![t[4]], vec![t[5]], vec![t[6]], vec![t[7]]];
+    Box::new(SourceNtsData {
+        cookies: CookieStash::from_parts((cookies, read, valid)),
+        c2s: Box::new(ModelCipher),
+        s2c: Box::new(ModelCipher),
+    })
+}
+
+#[derive(Clone, Copy, PartialEq, Eq)]
+enum Deadline {
+    Future, // certainly not passed when the packet is handled
+    Past,   // certainly passed
+}
+
+/// The complete one-call contract of handle_incoming, written from C07, C08, C09, C12 (and the
+/// T1..T4 mapping of C05). `p` is the decoded packet (contract of the decoder), `nts` whether the
+/// source uses NTS. Covers are placed by the callers.
+fn incoming_contract(nts: bool, p: PktSpec) -> (Snap, Snap, PktSpec, bool) {
+    let t0 = tokio::time::Instant::now();
+    let dl_kind = if kani::any() { Deadline::Future } else { Deadline::Past };
+    let has_pending: bool = kani::any();
+    let origin: u64 = kani::any();
+    // plain poll requests carry no uid, NTS requests always do (contract of poll_message* /
+    // nts_poll_message*, see c13_b_nts_poll_message_layout)
+    let uid: Option<[u8; 32]> = if nts { Some(kani::any()) } else { None };
+    let pending = if has_pending {
+        let id = RequestIdentifier::from_parts((ts(origin), uid));
+        let dl = match dl_kind {
+            // far enough ahead that it cannot pass during the call (clock model: seconds < 2^40)
+            Deadline::Future => t0 + Duration::from_secs(1 << 41),
+            Deadline::Past => match t0.checked_sub(Duration::from_nanos(1)) {
+                Some(d) => d,
+                None => {
+                    kani::assume(false);
+                    t0
+                }
+            },
+        };
+        Some((id, dl))
+    } else {
+        None
+    };
+    let mut s = any_source(if nts { Some(any_nts()) } else { None }, pending, plain_info());
+    if nts {
+        // key exchange yields V4 or V5 (C12: "an NTS source uses the version negotiated")
+        kani::assume(matches!(s.protocol_version, ProtocolVersion::V4 | ProtocolVersion::V5));
+    }
+    let before = snap(&s);
+    *NEXT_PKT.lock().unwrap() = Some(p);
+    let send_time = any_ts();
+    let recv_time = any_ts();
+    let msg = [0u8; 48];
+    let mut acts = s.handle_incoming(&msg, send_time, recv_time);
+    let first = acts.next();
+    let second = acts.next();
+    let after = snap(&s);
+    let meas = MEAS_CALLS.load(Relaxed);
+    let usable_calls = USABLE_CALLS.load(Relaxed);
+    assert!(second.is_none(), "at most one action");
+    let no_action = first.is_none();
+    let demobilize = matches!(first, Some(NtpSourceAction::Demobilize));
+    assert!(no_action || demobilize, "handle_incoming never sends, resets or re-arms the timer");
+
+    let version_ok = spec_expected_version(before.version, p.version);
+    let pending_ok = has_pending && dl_kind == Deadline::Future;
+    let bound = spec_bound_to_request(&p, origin, uid);
+    // a response that counts ("valid" / "matching answer")
+    let valid = p.parse_ok && version_ok && pending_ok && bound;
+    let last_poll = plog(before.last_poll);
+    let kiss = spec_kiss_class(&p, last_poll);
+    let unchanged = after == before;
+    // V5 datagrams with the auth-NAK flag that are not bound to the request by an authenticated
+    // uid: the generic "no effect" clauses below skip them; the C07 clause does not (FINDING,
+    // isolated in c07_tb_nts_unauth_v5_nak, see units/C07.json)
+    let nak_region = nts && p.parse_ok && p.version == 5 && p.authnak && !bound;
+
+    // ---------------- C08: measurements only for fresh answers, at most one per request
+    assert!(meas == 0 || meas == 2);
+    if meas > 0 {
+        assert!(p.parse_ok && version_ok);
+        assert!(has_pending && dl_kind == Deadline::Future);
+        assert!(bound);
+        assert!(!spec_kiss(&p) && p.stratum <= 16 && spec_mode_server(&p));
+        assert!(!after.pending);
+        // C05 (mapping of T1..T4): T1 = our send time, T2 = server receive, T3 = server transmit, T4 = our receive time
+        assert!(M0_SENDER_TS.load(Relaxed) == ts_raw(send_time) && M0_RECEIVER_TS.load(Relaxed) == p.recv);
+        assert!(M1_SENDER_TS.load(Relaxed) == p.xmit && M1_RECEIVER_TS.load(Relaxed) == ts_raw(recv_time));
+        assert!(usable_calls == 1);
+        assert!(no_action);
+        assert!(after.reach == before.reach | 1 && !after.have_deny);
+        assert!(after.stratum == p.stratum);
+    }
+    // and conversely a valid, non-KISS, sane server answer IS used (the source is not deaf)
+    if valid && kiss == Kiss::None && p.stratum <= 16 && spec_mode_server(&p) {
+        assert!(meas == 2);
+    }
+
+    // ---------------- C07: NTS sources ignore unauthenticated datagrams completely
+    if nts && p.parse_ok && spec_unauthenticated(&p) {
+        assert!(no_action, "C07: unauthenticated datagram caused an action");
+        assert!(meas == 0 && usable_calls == 0);
+        assert!(unchanged, "C07: unauthenticated datagram changed the source state");
+    }
+    // new cookies only from the encrypted part of an accepted response
+    if nts {
+        let c0 = before.cookies.unwrap();
+        let c1 = after.cookies.unwrap();
+        if meas > 0 {
+            assert!(c1 == core::cmp::min(c0 + spec_cookies_in(&p, 1), 8));
+        } else {
+            assert!(c1 == c0);
+        }
+    }
+
+    // ---------------- everything that is not a valid response has no effect at all
+    if !valid && !nak_region {
+        assert!(no_action && meas == 0 && usable_calls == 0);
+        assert!(unchanged);
+    }
+
+    // ---------------- C09: KISS arms (valid response with stratum 0)
+    if valid && kiss != Kiss::None {
+        assert!(meas == 0 && usable_calls == 0);
+        // synchronisation state untouched by any KISS code ...
+        assert!(after.reach == before.reach && after.stratum == before.stratum);
+        assert!(after.pending == before.pending && after.pending_origin == before.pending_origin && after.pending_deadline == before.pending_deadline && after.pending_uid == before.pending_uid);
+        assert!(after.reference_id == before.reference_id && after.tries == before.tries && after.last_poll == before.last_poll);
+        assert!(after.cookies == before.cookies && after.snapshots == before.snapshots);
+        match kiss {
+            Kiss::Rate => {
+                assert!(no_action);
+                assert!(after.have_deny == before.have_deny);
+                let rm0 = plog(before.remote_min) as i16;
+                let rm1 = plog(after.remote_min) as i16;
+                let max = plog(before.limits.max) as i16;
+                // never faster than the poll just sent
+                assert!(rm1 >= last_poll as i16);
+                // one step up, capped by the configured maximum (but never below the poll just sent)
+                assert!(rm1 == core::cmp::max(core::cmp::min(rm0 + 1, max), last_poll as i16));
+                if rm0 < max {
+                    assert!(rm1 >= rm0 + 1);
+                }
+                // the next poll uses max(desired, remote minimum) (c12_p_timer_send_*), hence >= last_poll
+                assert!(plog(s.current_poll_interval()) >= last_poll);
+            }
+            Kiss::Deny => {
+                assert!(after.remote_min == before.remote_min);
+                if nts {
+                    assert!(demobilize);
+                    assert!(after.have_deny == before.have_deny);
+                } else {
+                    assert!(no_action);
+                    assert!(after.have_deny);
+                }
+            }
+            Kiss::Ntsn | Kiss::Unknown => {
+                assert!(no_action);
+                assert!(after.remote_min == before.remote_min && after.have_deny == before.have_deny);
+            }
+            Kiss::None => {}
+        }
+    } else if !nak_region {
+        assert!(no_action, "Demobilize only for a valid DENY/RSTR on an NTS source");
+    }
+
+    // ---------------- C12: version state machine on answers
+    let want_version = if !valid {
+        before.version
+    } else {
+        match before.version {
+            ProtocolVersion::V4 => ProtocolVersion::V4,
+            ProtocolVersion::V5 => ProtocolVersion::V5,
+            ProtocolVersion::UpgradedToV5 => ProtocolVersion::V5,
+            ProtocolVersion::V4UpgradingToV5 { tries_left } => {
+                if spec_is_upgrade(&p) {
+                    ProtocolVersion::UpgradedToV5
+                } else if tries_left <= 1 {
+                    ProtocolVersion::V4
+                } else {
+                    ProtocolVersion::V4UpgradingToV5 { tries_left: tries_left - 1 }
+                }
+            }
+        }
+    };
+    assert!(after.version == want_version);
+    if nts {
+        assert!(after.version == before.version);
+    }
+
+    // ---------------- valid but unusable (bad stratum / mode): only the version may have moved
+    if valid && kiss == Kiss::None && !(p.stratum <= 16 && spec_mode_server(&p)) {
+        assert!(meas == 0 && usable_calls == 0 && no_action);
+        let mut b2 = before;
+        b2.version = after.version;
+        assert!(after == b2);
+    }
+    // ---------------- frame of the accepting arm
+    if meas > 0 {
+        assert!(after.last_poll == before.last_poll && after.tries == before.tries);
+        assert!(after.source_id == before.source_id && after.addr_ip == before.addr_ip && after.addr_port == before.addr_port);
+        assert!(after.limits == before.limits && after.desired == before.desired && after.id == before.id);
+        if p.version == 5 {
+            // a V5 server may ask for a longer interval with its poll field (C10: "any interval the server asked for")
+            assert!(plog(after.remote_min) == core::cmp::max(plog(before.remote_min), p.poll));
+            assert!(after.reference_id == ReferenceId::NONE);
+        } else {
+            assert!(after.remote_min == before.remote_min);
+            assert!(after.reference_id == ReferenceId::from_int(p.reference_id));
+        }
+        assert!(after.snapshots == 1);
+    }
+    (before, after, p, valid)
+}
+
+macro_rules! incoming_harness {
+    ($name:ident, $unwind:expr, $body:block) => {
+        harness! {
+            #[kani::stub(crate::packet::NtpPacket::deserialize, deserialize_stub)]
+            #[kani::unwind($unwind)]
+            fn $name() $body
+        }
+    };
+}
+
+const ALL_EF_KINDS: [u8; 9] = [0, 1, 2, 3, 4, 5, 6, 7, 8];
+
+// plain (non-NTS) source, V3/V4 answers. Decoder contract without a cipher: nothing is
+// authenticated, so the authenticated / encrypted lists are empty; <= 1 untrusted field.
+incoming_harness!(c08_tb_plain_v3v4, 4, {
+    let mut p = any_pkt(false);
+    p.n = [0, 0, 1];
+    p.efs[2][0] = any_ef(&ALL_EF_KINDS);
+    let (before, after, p, valid) = incoming_contract(false, p);
+    kani::cover!(MEAS_CALLS.load(Relaxed) == 2, "measurement reachable");
+    kani::cover!(valid && p.stratum == 0 && after.have_deny && !before.have_deny, "plain DENY reachable");
+    kani::cover!(valid && matches!(after.version, ProtocolVersion::UpgradedToV5), "upgrade reachable");
+    kani::cover!(valid && plog(after.remote_min) > plog(before.remote_min), "RATE reachable");
+});
+
+
+incoming_harness!(c08_tb_plain_v5, 4, {
+    let mut p = any_pkt(true);
+    p.n = [0, 0, 1];
+    p.efs[2][0] = any_ef(&ALL_EF_KINDS);
+    let (before, after, p, valid) = incoming_contract(false, p);
+    kani::cover!(MEAS_CALLS.load(Relaxed) == 2, "measurement reachable");
+    kani::cover!(valid && after.version == ProtocolVersion::V5 && before.version == ProtocolVersion::UpgradedToV5, "first V5 answer reachable");
+    kani::cover!(MEAS_CALLS.load(Relaxed) == 2 && plog(after.remote_min) > plog(before.remote_min), "server-requested poll reachable");
+    kani::cover!(valid && p.stratum == 0 && p.poll == 127 && after.have_deny, "V5 deny reachable");
+});
+
+// NTS source, unauthenticated datagrams (authenticated = encrypted = []), <= 2 untrusted fields.
+incoming_harness!(c07_tb_nts_unauth_v3v4, 4, {
+    let mut p = any_pkt(false);
+    p.n = [0, 0, 2];
+    p.efs[2][0] = any_ef(&ALL_EF_KINDS);
+    p.efs[2][1] = any_ef(&ALL_EF_KINDS);
+    let (_before, _after, p, valid) = incoming_contract(true, p);
+    assert!(!valid);
+    kani::cover!(p.parse_ok && p.stratum == 0 && p.reference_id == code(b"NTSN"), "unauthenticated NTS NAK reachable");
+    kani::cover!(p.parse_ok && p.n[2] == 2 && p.efs[2][0].kind == EF_UID && p.efs[2][1].kind == EF_COOKIE, "forged uid + cookie reachable");
+});
+incoming_harness!(c07_tb_nts_unauth_v5_no_nak, 4, {
+    let mut p = any_pkt(true);
+    p.authnak = false;
+    p.n = [0, 0, 2];
+    p.efs[2][0] = any_ef(&ALL_EF_KINDS);
+    p.efs[2][1] = any_ef(&ALL_EF_KINDS);
+    let (_before, _after, p, valid) = incoming_contract(true, p);
+    assert!(!valid);
+    kani::cover!(p.parse_ok && p.stratum == 0 && p.poll == 127 && p.n[2] >= 1 && p.efs[2][0].kind == EF_UID, "unauthenticated V5 deny with uid reachable");
+});
+// FINDING harness: same claim for V5 datagrams carrying the auth-NAK flag (see units/C07.json)
+incoming_harness!(c07_tb_nts_unauth_v5_nak, 4, {
+    let mut p = any_pkt(true);
+    p.authnak = true;
+    p.n = [0, 0, 2];
+    p.efs[2][0] = any_ef(&ALL_EF_KINDS);
+    p.efs[2][1] = any_ef(&ALL_EF_KINDS);
+    let (_before, _after, _p, valid) = incoming_contract(true, p);
+    assert!(!valid);
+    kani::cover!(true, "reachable");
+});
+// NTS source, authenticated answers: <= 2 authenticated, <= 2 encrypted, <= 1 untrusted field
+incoming_harness!(c07_tb_nts_auth_v4, 4, {
+    let mut p = any_pkt(false);
+    kani::assume(p.version == 4);
+    p.n = [2, 2, 1];
+    p.efs[0][0] = any_ef(&ALL_EF_KINDS);
+    p.efs[0][1] = any_ef(&ALL_EF_KINDS);
+    p.efs[1][0] = any_ef(&ALL_EF_KINDS);
+    p.efs[1][1] = any_ef(&ALL_EF_KINDS);
+    p.efs[2][0] = any_ef(&ALL_EF_KINDS);
+    let (before, after, p, valid) = incoming_contract(true, p);
+    kani::cover!(MEAS_CALLS.load(Relaxed) == 2 && after.cookies.unwrap() == before.cookies.unwrap() + 2, "two new cookies stored");
+    kani::cover!(valid && p.stratum == 0 && p.reference_id == code(b"DENY"), "authenticated DENY reachable");
+    kani::cover!(MEAS_CALLS.load(Relaxed) == 2 && p.n[2] == 1 && p.efs[2][0].kind == EF_COOKIE && after.cookies == before.cookies, "untrusted cookie not stored");
+});
+incoming_harness!(c07_tb_nts_auth_v5, 4, {
+    let mut p = any_pkt(true);
+    p.n = [2, 2, 1];
+    p.efs[0][0] = any_ef(&ALL_EF_KINDS);
+    p.efs[0][1] = any_ef(&ALL_EF_KINDS);
+    p.efs[1][0] = any_ef(&ALL_EF_KINDS);
+    p.efs[1][1] = any_ef(&ALL_EF_KINDS);
+    p.efs[2][0] = any_ef(&ALL_EF_KINDS);
+    let (_before, _after, p, valid) = incoming_contract(true, p);
+    kani::cover!(MEAS_CALLS.load(Relaxed) == 2, "measurement reachable");
+    kani::cover!(valid && p.stratum == 0 && p.poll == 127, "authenticated V5 deny reachable");
+});
+
+// ---- C09: the KISS arms (stratum 0) of the same contract, per source kind / wire version
+incoming_harness!(c09_tb_kiss_plain_v3v4, 4, {
+    let mut p = any_pkt(false);
+    p.stratum = 0;
+    let (before, after, p, valid) = incoming_contract(false, p);
+    kani::cover!(valid && p.reference_id == code(b"RATE") && plog(after.remote_min) == plog(before.remote_min) + 1, "RATE step reachable");
+    kani::cover!(valid && p.reference_id == code(b"RSTR") && after.have_deny, "RSTR marks plain source");
+    kani::cover!(valid && p.reference_id == code(b"NTSN"), "NTSN reachable");
+    kani::cover!(valid && p.reference_id == code(b"RATE") && plog(before.remote_min) == 127, "RATE arm entered with remote minimum 127 (one-step pre-state)");
+});
+incoming_harness!(c09_tb_kiss_plain_v5, 4, {
+    let mut p = any_pkt(true);
+    p.stratum = 0;
+    let (before, after, p, valid) = incoming_contract(false, p);
+    kani::cover!(valid && p.poll != 127 && plog(after.remote_min) > plog(before.remote_min), "V5 RATE reachable");
+    kani::cover!(valid && p.poll == 127 && after.have_deny, "V5 deny reachable");
+});
+incoming_harness!(c09_tb_kiss_nts_v4, 4, {
+    let mut p = any_pkt(false);
+    kani::assume(p.version == 4);
+    p.stratum = 0;
+    p.n = [2, 0, 0];
+    p.efs[0][0] = any_ef(&ALL_EF_KINDS);
+    p.efs[0][1] = any_ef(&ALL_EF_KINDS);
+    let (_before, _after, p, valid) = incoming_contract(true, p);
+    kani::cover!(valid && p.reference_id == code(b"DENY"), "authenticated DENY reachable");
+    kani::cover!(valid && p.reference_id == code(b"NTSN"), "authenticated NTSN reachable");
+});
+incoming_harness!(c09_tb_kiss_nts_v5, 4, {
+    let mut p = any_pkt(true);
+    p.stratum = 0;
+    p.n = [2, 0, 0];
+    p.efs[0][0] = any_ef(&ALL_EF_KINDS);
+    p.efs[0][1] = any_ef(&ALL_EF_KINDS);
+    let (_before, _after, p, valid) = incoming_contract(true, p);
+    kani::cover!(valid && p.poll == 127, "authenticated V5 deny reachable");
+});
+// ---- C12: the version transition table on answers (plain sources, no extension fields)
+incoming_harness!(c12_tb_incoming_transitions_v3v4, 4, {
+    let p = any_pkt(false);
+    let (before, after, _p, valid) = incoming_contract(false, p);
+    kani::cover!(valid && matches!(before.version, ProtocolVersion::V4UpgradingToV5 { tries_left: 1 }) && after.version == ProtocolVersion::V4, "giving up the upgrade reachable");
+    kani::cover!(valid && after.version == ProtocolVersion::UpgradedToV5, "upgrade reachable");
+    kani::cover!(valid && matches!(after.version, ProtocolVersion::V4UpgradingToV5 { tries_left: 7 }), "countdown reachable");
+});
+incoming_harness!(c12_tb_incoming_transitions_v5, 4, {
+    let p = any_pkt(true);
+    let (before, after, _p, valid) = incoming_contract(false, p);
+    kani::cover!(valid && before.version == ProtocolVersion::UpgradedToV5 && after.version == ProtocolVersion::V5, "confirmation reachable");
+    kani::cover!(!valid && before.version == ProtocolVersion::V4 && after.version == ProtocolVersion::V4, "V5 answer to a V4 source ignored");
+});
+
+// lemma (C08 "at most one measurement per request"): a second delivery before the next timer
+// finds no pending request. Pre-state `pending == None` is what the accepting arm leaves behind
+// (asserted in incoming_contract); any packet whatsoever then has no effect.
+incoming_harness!(c08_tb_replay_after_accept_ignored, 4, {
+    let mut p = any_pkt(kani::any());
+    p.n = [0, 0, 1];
+    p.efs[2][0] = any_ef(&ALL_EF_KINDS);
+    let mut s = any_source(None, None, plain_info());
+    let before = snap(&s);
+    *NEXT_PKT.lock().unwrap() = Some(p);
+    let mut acts = s.handle_incoming(&[0u8; 48], any_ts(), any_ts());
+    assert!(acts.next().is_none());
+    assert!(no_controller_calls());
+    assert!(snap(&s) == before);
+    kani::cover!(p.parse_ok && p.stratum == 1, "reachable");
+});
+
+
+// ================================================================ handle_timer send path, per version state
+macro_rules! timer_harness {
+    ($quick:ident, $wire:ident, $v:expr) => {
+        harness! {
+            #[kani::stub(core::time::Duration::mul_f64, mul_f64_rec)]
+            #[kani::stub(crate::packet::NtpPacket::serialize, serialize_rec)]
+            #[kani::unwind(10)]
+            fn $quick() {
+                timer_plain_send_contract($v, false);
+            }
+        }
+        harness! {
+            #[kani::stub(core::time::Duration::mul_f64, mul_f64_rec)]
+            #[kani::unwind(50)]
+            fn $wire() {
+                timer_plain_send_contract($v, true);
+            }
+        }
+    };
+}
+timer_harness!(c12_tp_timer_send_v4, c12_tp_timer_wire_v4, ProtocolVersion::V4);
+timer_harness!(c12_tp_timer_send_upgrading, c12_tp_timer_wire_upgrading, ProtocolVersion::V4UpgradingToV5 { tries_left: kani::any() });
+timer_harness!(c12_tp_timer_send_upgraded, c12_tp_timer_wire_upgraded, ProtocolVersion::UpgradedToV5);
+timer_harness!(c12_tp_timer_send_v5, c12_tp_timer_wire_v5, ProtocolVersion::V5);
+
+// ================================================================ C10: current_poll_interval and the timer factor
+#[kani::proof]
+#[kani::unwind(12)]
+fn c10_p_current_poll_interval() {
+    let s = any_source(None, None, plain_info());
+    let got = s.current_poll_interval();
+    let desired = s.controller.desired;
+    let remote = s.remote_min_poll_interval;
+    assert!(plog(got) == core::cmp::max(plog(desired), plog(remote)));
+    // C10 bounds: with min <= desired <= max (filter invariant, kalman/source.rs) the result is
+    // >= the configured minimum and <= max(configured maximum, what the server asked for)
+    let l = s.source_config.poll_interval_limits;
+    if l.min <= desired && desired <= l.max {
+        assert!(got >= l.min);
+        assert!(got <= core::cmp::max(l.max, remote));
+    }
+    kani::cover!(remote > l.max && desired <= l.max, "server request above configured maximum reachable");
+}
+
+/// Duration::mul_f64 on the arguments handle_timer passes (recorded in c12_p_timer_send_*):
+/// interval = 2^e seconds with e = clamp(poll, 0, 31) (c10_p_poll_as_duration), factor in [1.01, 1.05]:
+/// result within [1.01, 1.05] x interval up to 1 ns of float rounding.
+#[kani::proof]
+fn c10_p_mul_f64_jitter_range() {
+    let p = any_poll();
+    let base = p.as_system_duration();
+    let f: f64 = kani::any();
+    kani::assume(f >= 1.01 && f <= 1.05);
+    let d = base.mul_f64(f);
+    let b = base.as_nanos();
+    let r = d.as_nanos();
+    // tolerance: 1 ns + 1e-9 relative (1.01 and 1.05 are not exactly representable in f64:
+    // 1.05 is 1.05000000000000004..., which on 2^31 s is ~95 ns above "1.05 x interval")
+    assert!(r * 100 + 100 + b / 10_000_000 >= b * 101);
+    assert!(r * 100 <= b * 105 + 100 + b / 10_000_000);
+    kani::cover!(plog(p) == 17, "36 h interval reachable");
+}
+
+// ================================================================ C33: accept_synchronization
+fn bit_set(bytes: &[u8; 512], idx: u16) -> bool {
+    bytes[(idx / 8) as usize] & (1u8 << (idx % 8)) != 0
+}
+fn any_ipv4() -> ([u8; 4], IpAddr) {
+    let o: [u8; 4] = kani::any();
+    (o, IpAddr::V4(std::net::Ipv4Addr::new(o[0], o[1], o[2], o[3])))
+}
+struct AcceptCase {
+    snap: NtpSourceSnapshot,
+    local_stratum: u8,
+    ips: [[u8; 4]; 2],
+    n_ips: usize,
+    sid: [u16; 10],
+    filter: Option<[u8; 512]>,
+    result_ok: bool,
+}
+/// bound: at most 2 local IPv4 addresses (IPv6 ids are MD5-derived: not modelled)
+fn accept_case(with_filter: bool) -> AcceptCase {
+    let (sid, sidv) = any_server_id();
+    let filter: Option<[u8; 512]> = if with_filter { Some(kani::any()) } else { None };
+    let snap = NtpSourceSnapshot {
+        source_addr: any_addr_v4(),
+        source_id: ReferenceId::from_int(kani::any()),
+        poll_interval: any_poll(),
+        reach: Reach(kani::any()),
+        stratum: kani::any(),
+        reference_id: ReferenceId::from_int(kani::any()),
+        protocol_version: any_version(),
+        bloom_filter: filter.map(BloomFilter::from_parts),
+    };
+    let (a, ipa) = any_ipv4();
+    let (b, ipb) = any_ipv4();
+    let n_ips: usize = kani::any();
+    kani::assume(n_ips <= 2);
+    let list = [ipa, ipb];
+    let local_stratum: u8 = kani::any();
+    let r = snap.accept_synchronization(local_stratum, &list[..n_ips], sid);
+    AcceptCase { snap, local_stratum, ips: [a, b], n_ips, sid: sidv, filter, result_ok: r.is_ok() }
+}
+fn id_in_local(c: &AcceptCase, id: ReferenceId) -> bool {
+    (c.n_ips >= 1 && id == ReferenceId::from_int(u32::from_be_bytes(c.ips[0])))
+        || (c.n_ips >= 2 && id == ReferenceId::from_int(u32::from_be_bytes(c.ips[1])))
+}
+
+harness! {
+    #[kani::unwind(12)]
+    fn c33_b_accept_stratum_reach_bloom() {
+        let c = accept_case(true);
+        if c.result_ok {
+            assert!(c.snap.stratum < c.local_stratum);
+            assert!(c.snap.reach.is_reachable());
+            // the source's Bloom filter does not contain this daemon's server id:
+            // at least one of the ten index bits is clear
+            let f = c.filter.unwrap();
+            let mut all = true;
+            let mut i = 0;
+            while i < 10 {
+                if !bit_set(&f, c.sid[i]) {
+                    all = false;
+                }
+                i += 1;
+            }
+            assert!(!all);
+        }
+        kani::cover!(c.result_ok, "acceptance reachable");
+    }
+}
+harness! {
+    #[kani::unwind(12)]
+    fn c33_b_accept_not_self_above_stratum1() {
+        // what the code does check: a source whose own address id is one of ours is refused -- but
+        // only when its stratum is not 1
+        let c = accept_case(false);
+        if c.result_ok && c.snap.stratum != 1 {
+            assert!(!id_in_local(&c, c.snap.source_id));
+        }
+        kani::cover!(c.result_ok && c.n_ips == 2, "acceptance with two local addresses reachable");
+    }
+}
+// FINDING harnesses (statement clauses the code does not implement, see units/C33.json)
+harness! {
+    #[kani::unwind(12)]
+    fn c33_b_accept_never_self() {
+        // statement: "never used ... if it is this daemon itself" (any stratum)
+        let c = accept_case(false);
+        if c.result_ok {
+            assert!(!id_in_local(&c, c.snap.source_id), "C33: source with one of our own addresses accepted");
+        }
+        kani::cover!(c.result_ok, "acceptance reachable");
+    }
+}
+harness! {
+    #[kani::unwind(12)]
+    fn c33_b_accept_refid_loop() {
+        // statement: "... or if it reports that it synchronises to this daemon (by its reference id
+        // when its stratum is above 1 ...)"
+        let c = accept_case(false);
+        if c.result_ok && c.snap.stratum > 1 {
+            assert!(!id_in_local(&c, c.snap.reference_id), "C33: source whose reference id is one of our addresses accepted");
+        }
+        kani::cover!(c.result_ok, "acceptance reachable");
+    }
+}
+harness! {
+    #[kani::unwind(12)]
+    fn c33_canary_accept_never() {
+        // false: claims no source is ever accepted
+        let c = accept_case(false);
+        assert!(!c.result_ok);
+    }
+}
+
+// ================================================================ C13: request layout
+/// nts_poll_message / nts_poll_message_v5: authenticated == [uid(32 bytes), cookie, placeholder x (n-1)]
+/// (V5: followed by the draft identification), nothing encrypted / untrusted, uid recorded in the
+/// request identifier. bound: cookie length <= 4 (content symbolic), n <= 8 (gap() <= 8).
+fn nts_poll_layout(v5: bool, max_n: u8) {
+    let bytes: [u8; 4] = kani::any();
+    let len: usize = if kani::any() { 0 } else if kani::any() { 1 } else { 4 };
+    let cookie = &bytes[..len];
+    // n is fixed per harness (a symbolic loop bound makes CBMC unroll every Vec::push growth path)
+    let n: u8 = max_n;
+    let poll = any_poll();
+    let (pkt, id) = if v5 { NtpPacket::nts_poll_message_v5(cookie, n, poll) } else { NtpPacket::nts_poll_message(cookie, n, poll) };
+    let (n_auth, n_enc, n_untr): (usize, usize, usize) = pkt.parts();
+    assert!(n_enc == 0 && n_untr == 0);
+    assert!(n_auth == 1 + n as usize + if v5 { 1 } else { 0 });
+    let (_origin, uid) = id.parts();
+    let uid = uid.unwrap();
+    let mut i = 0usize;
+    for ef in pkt.authenticated_extension_fields() {
+        if i == 0 {
+            assert!(matches!(ef, ExtensionField::UniqueIdentifier(u) if u.len() == 32 && **u == uid[..]));
+        } else if i == 1 {
+            // the cookie is sent exactly once, whole
+            assert!(matches!(ef, ExtensionField::NtsCookie(c) if **c == *cookie));
+        } else if i <= n as usize {
+            // exactly n - 1 placeholders of the cookie's size: n new cookies requested in total
+            assert!(matches!(ef, ExtensionField::NtsCookiePlaceholder { cookie_length } if *cookie_length as usize == len));
+        } else {
+            assert!(v5 && matches!(ef, ExtensionField::DraftIdentification(_)));
+        }
+        i += 1;
+    }
+    assert!(i == n_auth);
+    assert!(pkt.poll() == poll && pkt.mode() == NtpAssociationMode::Client);
+    assert!(pkt.version() == if v5 { NtpVersion::V5 } else { NtpVersion::V4 });
+    kani::cover!(n == max_n && len == 4, "maximal request reachable");
+}
+// bound: n in {1, 3} in the quick tier, n = 8 = MAX_COOKIES (the largest value gap() can return) in
+// the thorough tier; cookie length in {0, 1, 4} with symbolic content (the code copies it blindly)
+macro_rules! layout_harness {
+    ($name:ident, $v5:expr, $n:expr) => {
+        #[kani::proof]
+        #[kani::unwind(34)]
+        fn $name() {
+            nts_poll_layout($v5, $n);
+        }
+    };
+}
+layout_harness!(c13_b_nts_poll_layout_v4_n1, false, 1);
+layout_harness!(c13_b_nts_poll_layout_v4_n3, false, 3);
+layout_harness!(c13_b_nts_poll_layout_v5_n3, true, 3);
+layout_harness!(c13_tb_nts_poll_layout_v4_n8, false, 8);
+layout_harness!(c13_tb_nts_poll_layout_v5_n8, true, 8);
+
+
+// ================================================================ quick tier for C07 / C08 / C09 / C12:
+// the deciding predicates of handle_incoming on decoded packets, without the source object
+// (the full handle_incoming contract above is thorough-tier: 5-15 min per harness).
+
+fn packet_with_lists(v5: bool) -> PktSpec {
+    let mut p = any_pkt(v5);
+    p.parse_ok = true;
+    p.n = [2, 2, 2];
+    p.efs[0][0] = any_ef(&ALL_EF_KINDS);
+    p.efs[0][1] = any_ef(&ALL_EF_KINDS);
+    p.efs[1][0] = any_ef(&ALL_EF_KINDS);
+    p.efs[1][1] = any_ef(&ALL_EF_KINDS);
+    p.efs[2][0] = any_ef(&ALL_EF_KINDS);
+    p.efs[2][1] = any_ef(&ALL_EF_KINDS);
+    // a list of two fields whose second entry is of an inert kind behaves as a list of one
+    p
+}
+fn spec_is_ntsn(p: &PktSpec) -> bool {
+    p.stratum == 0 && if p.version == 5 { p.authnak } else { p.reference_id == code(b"NTSN") }
+}
+
+/// NtpPacket::valid_server_response for an NTS request (uid present). bound: 2 fields per list.
+/// post (C07): true => origin / client cookie matches AND the uid is confirmed by an
+/// authenticated or encrypted field with none contradicting -- the only exception being an NTS
+/// NAK, which may be bound by an untrusted uid (it must then not change any state, C09).
+fn valid_response_nts_contract(v5: bool, unauth: bool) {
+    let mut p = packet_with_lists(v5);
+    // bound: one field per list (authenticated datagram) or two untrusted fields only
+    p.n = if unauth { [0, 0, 2] } else { [1, 1, 1] };
+    let pkt = build_packet(&p);
+    let origin: u64 = kani::any();
+    let uid: [u8; 32] = kani::any();
+    let id = RequestIdentifier::from_parts((ts(origin), Some(uid)));
+    let got = pkt.valid_server_response(id, true);
+    let bound = spec_bound_to_request(&p, origin, Some(uid));
+    if got {
+        assert!(p.origin == origin);
+        let (u_any, u_ok) = spec_uid(&p, 2, &uid);
+        let (_a_any, a_ok) = spec_uid(&p, 0, &uid);
+        let (_e_any, e_ok) = spec_uid(&p, 1, &uid);
+        assert!(bound || (spec_is_ntsn(&p) && u_any && u_ok && a_ok && e_ok));
+        if spec_unauthenticated(&p) {
+            assert!(spec_is_ntsn(&p), "an unauthenticated datagram is at most an NTS NAK");
+        }
+    }
+    if bound && !spec_is_ntsn(&p) {
+        // untrusted fields cannot invalidate an authenticated answer
+        assert!(got);
+    }
+    // cookie intake: exactly the cookie fields of the encrypted list, in order, nothing else
+    let mut k = 0usize;
+    for c in pkt.new_cookies() {
+        // find the k-th cookie field of the encrypted list in the spec
+        let mut seen = 0usize;
+        let mut i = 0;
+        let mut found = false;
+        while i < 2 {
+            if (i as u8) < p.n[1] && p.efs[1][i].kind == EF_COOKIE {
+                if seen == k {
+                    assert!(c.len() == 2 && c[0] == p.efs[1][i].data[0] && c[1] == p.efs[1][i].data[1]);
+                    found = true;
+                }
+                seen += 1;
+            }
+            i += 1;
+        }
+        assert!(found);
+        k += 1;
+    }
+    assert!(k == spec_cookies_in(&p, 1));
+    kani::cover!(unauth || (got && bound), "authenticated match reachable (authenticated variant)");
+    kani::cover!(got && (spec_unauthenticated(&p) || !unauth), "accepting case reachable");
+    kani::cover!(unauth || k == 1, "cookie intake reachable");
+}
+macro_rules! valid_nts_harness {
+    ($name:ident, $v5:expr, $unauth:expr) => {
+        #[kani::proof]
+        #[kani::unwind(4)]
+        fn $name() {
+            valid_response_nts_contract($v5, $unauth);
+        }
+    };
+}
+valid_nts_harness!(c07_b_valid_response_nts_auth_v3v4, false, false);
+valid_nts_harness!(c07_b_valid_response_nts_auth_v5, true, false);
+valid_nts_harness!(c07_b_valid_response_nts_unauth_v3v4, false, true);
+valid_nts_harness!(c07_b_valid_response_nts_unauth_v5, true, true);
+#[kani::proof]
+#[kani::unwind(4)]
+fn c07_canary_untrusted_uid_suffices() {
+    // false: claims a matching origin is enough for an NTS source
+    let mut p = packet_with_lists(false);
+    p.n = [0, 0, 1];
+    let pkt = build_packet(&p);
+    let origin: u64 = kani::any();
+    let uid: [u8; 32] = kani::any();
+    let got = pkt.valid_server_response(RequestIdentifier::from_parts((ts(origin), Some(uid))), true);
+    assert!(got == (p.origin == origin));
+}
+
+/// plain request (no uid): valid <=> origin timestamp (V3/V4) / client cookie (V5) is the one sent
+fn valid_response_plain_contract(v5: bool) {
+    let mut p = packet_with_lists(v5);
+    p.n = [0, 0, 1];
+    let pkt = build_packet(&p);
+    let origin: u64 = kani::any();
+    let got = pkt.valid_server_response(RequestIdentifier::from_parts((ts(origin), None)), false);
+    assert!(got == (p.origin == origin));
+    // the header observers handle_incoming dispatches on (C08: kiss, stratum, mode; C12: version, marker)
+    assert!(pkt.is_kiss() == (p.stratum == 0));
+    assert!(pkt.stratum() == p.stratum);
+    assert!((pkt.mode() == NtpAssociationMode::Server) == spec_mode_server(&p));
+    assert!(pkt.version().as_u8() == p.version);
+    assert!(pkt.is_upgrade() == spec_is_upgrade(&p));
+    assert!(ts_raw(pkt.receive_timestamp()) == p.recv && ts_raw(pkt.transmit_timestamp()) == p.xmit);
+    kani::cover!(got, "match reachable");
+}
+#[kani::proof]
+#[kani::unwind(4)]
+fn c08_b_valid_response_plain_v3v4() {
+    valid_response_plain_contract(false);
+}
+#[kani::proof]
+#[kani::unwind(4)]
+fn c08_b_valid_response_plain_v5() {
+    valid_response_plain_contract(true);
+}
+#[kani::proof]
+#[kani::unwind(4)]
+fn c08_canary_any_origin_valid() {
+    // false: claims the origin field is not looked at
+    let mut p = packet_with_lists(false);
+    p.n = [0, 0, 0];
+    let pkt = build_packet(&p);
+    assert!(pkt.valid_server_response(RequestIdentifier::from_parts((any_ts(), None)), false));
+}
+
+/// C09: the KISS predicates handle_incoming dispatches on, against the classification used in
+/// the contract (spec_kiss_class); header-only, both wire families; complete over the header.
+#[kani::proof]
+#[kani::unwind(4)]
+fn c09_p_kiss_predicates_match_classification() {
+    let mut p = any_pkt(kani::any());
+    p.parse_ok = true;
+    let pkt = build_packet(&p);
+    let own = any_poll();
+    let rate = pkt.is_kiss_rate(own);
+    let deny = pkt.is_kiss_deny() || pkt.is_kiss_rstr();
+    let ntsn = pkt.is_kiss_ntsn();
+    // dispatch order of handle_incoming: rate, deny/rstr, ntsn, other kiss
+    let class = if rate {
+        Kiss::Rate
+    } else if deny {
+        Kiss::Deny
+    } else if ntsn {
+        Kiss::Ntsn
+    } else if pkt.is_kiss() {
+        Kiss::Unknown
+    } else {
+        Kiss::None
+    };
+    assert!(class == spec_kiss_class(&p, plog(own)));
+    if p.version != 5 {
+        // V3/V4: the four codes are mutually exclusive, no precedence involved
+        assert!(rate as u8 + deny as u8 + ntsn as u8 <= 1);
+    }
+    kani::cover!(p.version == 5 && ntsn && deny, "V5 packet that is NAK and deny at once (dispatched as deny)");
+    kani::cover!(class == Kiss::Rate && p.version == 5, "V5 rate reachable");
+}
+#[kani::proof]
+#[kani::unwind(4)]
+fn c09_canary_v5_nak_exclusive() {
+    // false: claims V5 auth-NAK packets are never classified as deny
+    let mut p = any_pkt(true);
+    p.parse_ok = true;
+    let pkt = build_packet(&p);
+    assert!(!(pkt.is_kiss_ntsn() && pkt.is_kiss_deny()));
+}
+#[kani::proof]
+fn c12_canary_v3_accepted_while_upgrading() {
+    // false: claims an upgrading source accepts NTPv3 answers
+    assert!(ProtocolVersion::V4UpgradingToV5 { tries_left: kani::any() }.is_expected_incoming_version(NtpVersion::V3));
+}
+
+// ================================================================ C07 FINDING, concrete witness
+// The statement's claim on ONE concrete datagram: NTPv5, stratum 0, poll 127 ("never"), auth-NAK
+// flag set, no authenticated / encrypted field, one untrusted uid field echoing the request's uid,
+// client cookie echoing the request. Everything in it is visible on the wire to an on-path attacker.
+// Claim (C07): no action, no state change. The real code returns [Demobilize].
+incoming_harness!(c07_b_unauth_v5_nak_deny_witness, 4, {
+    let uid: [u8; 32] = [7; 32];
+    let origin: u64 = 0x0102_0304_0506_0708;
+    let mut p = PktSpec {
+        parse_ok: true,
+        version: 5,
+        leap: 0,
+        mode: 4,
+        stratum: 0,
+        poll: 127,
+        precision: 0,
+        root_delay: 0,
+        root_dispersion: 0,
+        reference_id: 0,
+        reference_ts: 0,
+        origin,
+        recv: 0,
+        xmit: 0,
+        timescale: 0,
+        era: 0,
+        synchronized: false,
+        interleaved: false,
+        authnak: true,
+        server_cookie: [0; 8],
+        n: [0, 0, 1],
+        efs: [[NO_EF; 2]; 3],
+    };
+    p.efs[2][0] = EfSpec { kind: EF_UID, data: uid, len_sel: 0, num: 0 };
+    let t0 = tokio::time::Instant::now();
+    let pending = Some((RequestIdentifier::from_parts((ts(origin), Some(uid))), t0 + Duration::from_secs(1 << 41)));
+    let mut s = any_source(Some(any_nts()), pending, plain_info());
+    s.protocol_version = ProtocolVersion::V5;
+    let before = snap(&s);
+    *NEXT_PKT.lock().unwrap() = Some(p);
+    let mut acts = s.handle_incoming(&[0u8; 48], any_ts(), any_ts());
+    let first = acts.next();
+    assert!(first.is_none(), "C07: unauthenticated NTPv5 NAK+deny datagram produced an action (Demobilize)");
+    assert!(snap(&s) == before);
+    kani::cover!(true, "reachable");
+});
+
+
+// ================================================================ C05: T1..T4 mapping
+/// measurements_from_packet: (T1, T2) = (our send time, server receive timestamp) goes out as
+/// the system->source measurement, (T3, T4) = (server transmit timestamp, our receive time) as the
+/// source->system one; root delay / dispersion / leap / precision copied from the header.
+/// Complete over the header (V3/V4/V5) and the two local timestamps.
+#[kani::proof]
+#[kani::unwind(4)]
+fn c05_p_measurements_from_packet() {
+    let mut p = any_pkt(kani::any());
+    p.parse_ok = true;
+    let pkt = build_packet(&p);
+    let id = ClockId(kani::any());
+    let send_time = any_ts();
+    let recv_time = any_ts();
+    let (out, inc) = measurements_from_packet(&pkt, id, send_time, recv_time);
+    assert!(out.sender_id == ClockId::SYSTEM && out.receiver_id == id);
+    assert!(out.sender_ts == send_time && ts_raw(out.receiver_ts) == p.recv);
+    assert!(inc.sender_id == id && inc.receiver_id == ClockId::SYSTEM);
+    assert!(ts_raw(inc.sender_ts) == p.xmit && inc.receiver_ts == recv_time);
+    assert!(out.root_delay == dur(p.root_delay) && inc.root_delay == dur(p.root_delay));
+    assert!(out.root_dispersion == dur(p.root_dispersion) && inc.root_dispersion == dur(p.root_dispersion));
+    assert!(out.precision == p.precision && inc.precision == p.precision);
+    assert!(out.leap == leap_of(p.leap) && inc.leap == leap_of(p.leap));
+    kani::cover!(p.version == 5, "V5 reachable");
+}
+#[kani::proof]
+#[kani::unwind(4)]
+fn c05_canary_t2_t3_swapped() {
+    let mut p = any_pkt(false);
+    p.parse_ok = true;
+    let pkt = build_packet(&p);
+    let (out, _inc) = measurements_from_packet(&pkt, ClockId(1), any_ts(), any_ts());
+    assert!(ts_raw(out.receiver_ts) == p.xmit);
+}
 
 #[cfg(all(kani, test))]
 mod replay {
